@@ -911,6 +911,24 @@ class NumpyModel:
                 new = base.w(geo=('FRAC', 'W'))
                 self.rebind(interp, st, frame, tv, new)
                 return
+            # masked single-step image correction: d[d > 0.5] -= 1 / d[d < -0.5] += 1
+            if aug and base.geo is not None and base.geo[0] == 'FDIFF' and idx is not None and idx.cmp is not None \
+                    and value is not None and value.bin is not None and value.bin[0] in ('+', '-') and has_const(value.bin[2]) and cval(value.bin[2]) == 1:
+                nc = norm_cmp(idx.cmp)
+                if nc is not None and nc[3] == interp.sx(tv) and isinstance(cval(nc[2]), (int, float)) and abs(abs(cval(nc[2])) - 0.5) < 0.01:
+                    cop, direction, thr = nc[0], value.bin[0], cval(nc[2])
+                    ok_dir = (cop in ('>', '>=') and direction == '-' and thr > 0) or (cop in ('<', '<=') and direction == '+' and thr < 0)
+                    g = base.geo
+                    if ok_dir:
+                        if g[1] == 'W2':
+                            ng = ('FDIFF', 'W1', direction)
+                        elif g[1] == 'W1' and len(g) > 2 and g[2] != direction:
+                            ng = ('FDIFF', 'CW')
+                        else:
+                            ng = g
+                        interp.emit('image_correction', target, how='single', diff=base, base=base, direction=direction)
+                        self.rebind(interp, st, frame, tv, base.w(geo=ng))
+                        return
             if base.alloc in ('zeros', 'zeros_like', 'empty', 'full') and value is not None and not aug:
                 vm = mono_of(value)
                 new = base.w(filled_from=value, filled_at=idx, mono=vm if vm is not None else base.mono)
